@@ -677,7 +677,7 @@ func c9Bounds() (treeMaxByPatternSize []int) {
 	if vx.Thorough() {
 		return []int{0, 6, 6, 6, 6, 6, 5, 5, 3}
 	}
-	return []int{0, 5, 5, 5, 5, 5, 5, 3}
+	return []int{0, 5, 5, 5, 5, 5, 5, 3, 3}
 }
 
 func TestVerifC09(t *testing.T) {
@@ -698,7 +698,7 @@ func TestVerifC09(t *testing.T) {
 	// The live heap is tiny and every pair allocates (Matcher, State, environments): collect
 	// by memory limit instead of by growth ratio.
 	defer debug.SetGCPercent(debug.SetGCPercent(c9GCPercent()))
-	res.SetBudget(vx.Pick(70*time.Second, 18*time.Minute))
+	res.SetBudget(vx.Budget(120*time.Second, 18*time.Minute))
 	bounds := c9Bounds()
 	maxTree := 0
 	for _, b := range bounds {
